@@ -557,6 +557,10 @@ def _run(ctx):
         ctx.ob("C20.f", f_.qual, bad_ is None, "the runner lets a SystemExit raised by the command pass through unchanged", func=f_.qual, file=file,
                node=bad_[0] if bad_ else t_, construct="try around the command",
                fail=(bad_[1] + ": a rejected setting ends the process with status 0") if bad_ else "")
+    # "applies the interpretation of each pair and leaves unspecified settings as the device reported them": the value assigned by the CLI -
+    # and the reported one for every setting not named - is what apply() encodes (setter -> attribute -> command attribute unchanged; C10.f)
+    from ._chains import apply_chains
+    apply_chains(ctx, "C20.e")
     from ._chains import transparent_deprecated
     transparent_deprecated(ctx, "C20.c")          # (a deprecated setting name reads the same default and writes the same attribute)
     ctx.require_min("settings_loops", 1)
